@@ -2,7 +2,7 @@
 CONSTANTS
     MPs = {"m1", "m2"}
     Blobs = {"b1"}
-    Labs = {"ok", "bad"}
+    Labs = {"ok"}
     Ops = {"Mount", "Check", "Unmount"}
     MaxCalls = 3
     MaxConc = 2
